@@ -82,6 +82,13 @@ GALLERY = [
     ("<T: 'static>(deps: &impl ::core::marker::Sized, x: u8) -> (&'static str, u8)", "{ (::core::any::type_name::<T>(), x) }", "7", "(\"u16\", 7)",
      ("::<u16>", "Subj::<u16>::subj(&app, 7)")),
     ("<D, const N: usize>(deps: &D) -> usize", "{ N }", "", "3", ("::<_, 3>", "Subj::<3>::subj(&app)")),
+    # a binder written on the where predicate, over several bounds that all use the bound lifetime
+    ("<D>(deps: &D, s: &str) -> usize where for<'a> D: GP<'a> + GM<'a> + ::core::marker::Sync", "{ deps.gp(s).len() + deps.gm(s) }", "\"abc\"", "5",
+     ("", None), "pub trait GP<'a> { fn gp(&self, s: &'a str) -> &'a str; } pub trait GM<'a> { fn gm(&self, s: &'a str) -> usize; }\n"
+                 "impl<'a, T> GP<'a> for ::entrait::Impl<T> { fn gp(&self, s: &'a str) -> &'a str { &s[1..] } } impl<'a, T> GM<'a> for ::entrait::Impl<T> { fn gm(&self, s: &'a str) -> usize { s.len() } }"),
+    ("<D>(deps: &D, s: &str) -> usize where for<'a, 'b> D: GP<'a> + GM<'b>, D: ::core::marker::Sync", "{ deps.gp(s).len() + deps.gm(s) }", "\"abcd\"", "7",
+     ("", None), "pub trait GP<'a> { fn gp(&self, s: &'a str) -> &'a str; } pub trait GM<'a> { fn gm(&self, s: &'a str) -> usize; }\n"
+                 "impl<'a, T> GP<'a> for ::entrait::Impl<T> { fn gp(&self, s: &'a str) -> &'a str { &s[1..] } } impl<'a, T> GM<'a> for ::entrait::Impl<T> { fn gm(&self, s: &'a str) -> usize { s.len() } }"),
     ("<'a, D, T: ::core::default::Default + ::core::fmt::Debug, const N: usize>(deps: &'a D, s: &'a str) -> (::std::string::String, &'a str)",
      "{ (::std::format!(\"{:?}{}\", T::default(), N), s) }", "\"s\"", "(\"05\", \"s\")", ("::<_, i8, 5>", "Subj::<i8, 5>::subj(&app, \"s\")")),
 ]
@@ -92,6 +99,7 @@ def gallery_cases(label):
     for gi, entry in enumerate(GALLERY):
         sig, body, args, want = entry[:4]
         turbofish, trait_call = entry[4] if len(entry) > 4 else ("", None)
+        prelude = (entry[5] + "\n") if len(entry) > 5 else ""
         for form in ("fn", "async", "mod", "unsafe"):
             cid = "c03g%s_%02d_%s" % (label, gi, form)
             is_async = form == "async"
@@ -104,10 +112,10 @@ def gallery_cases(label):
             if is_async and ("dyn Iterator" in sig or "*const" in sig or "&mut Vec" in sig and False):
                 continue   # non-Send arguments in a Send future: rustc's rule
             if form == "mod":
-                item = "#[::entrait::entrait(pub Subj)] /*@inv*/\npub mod m { use super::*; %s }" % fn
+                item = prelude + "#[::entrait::entrait(pub Subj)] /*@inv*/\npub mod m { use super::*; %s }" % fn
                 path = "m::subj"
             else:
-                item = "#[::entrait::entrait(pub Subj)] /*@inv*/\n%s" % fn
+                item = prelude + "#[::entrait::entrait(pub Subj)] /*@inv*/\n%s" % fn
                 path = "subj"
             w = (lambda c: "::vrt::block_on(%s)" % c) if is_async else ((lambda c: "unsafe { %s }" % c) if form == "unsafe" else (lambda c: c))
             dbg = "&::std::format!(\"{:?}\", %s)"
